@@ -8,8 +8,18 @@ LEN_UNITS = ["cm", "m", "km", "au", "pc"]
 
 
 @st.composite
-def mesh_specs(draw, dims=(2, 3)):
+def mesh_specs(draw, dims=(2, 3), rich=False):
     d = draw(st.sampled_from(list(dims)))
+    if rich:
+        return {
+            "d": d, "seed": draw(st.integers(0, 2 ** 31 - 2)), "base": draw(st.sampled_from([1, 1, 2])),
+            "depth": draw(st.integers(1, 3)), "refine_p": draw(st.sampled_from([0.15, 0.3, 0.5, 0.8])),
+            "hole_p": draw(st.sampled_from([0.0, 0.05, 0.2, 0.3])), "subtree_hole_p": draw(st.sampled_from([0.0, 0.1])),
+            "L": draw(st.sampled_from([1.0, 2.0, 0.03, 7.5e3])),
+            "corner": [draw(st.sampled_from([0.0, 0.0, -0.5, 3.0])) for _ in range(3)],
+            "pos_unit": draw(st.sampled_from(LEN_UNITS)),
+            "dx_unit": draw(st.sampled_from(["same", "same", "same", "same", "same", "other"])), "max_cells": 800,
+        }
     return {
         "d": d, "seed": draw(st.integers(0, 2 ** 31 - 2)),
         "base": draw(st.sampled_from([0, 1, 1, 2])),                  # base grid 2^base per dimension
